@@ -313,6 +313,26 @@ CHECKS = {
 
 
 def main():
+    # later rounds override / extend the strings of a property through tools/manifest_texts/<id>.json:
+    #   {"text": ..., "note": ... (TB is appended), "technique": ..., "text_append": ..., "note_append": ..., "technique_append": ...}
+    tdir = os.path.join(HERE, 'manifest_texts')
+    for pid in list(CHECKS):
+        f = os.path.join(tdir, pid + '.json')
+        if os.path.exists(f):
+            o = json.load(open(f))
+            c = CHECKS[pid]
+            if 'text' in o:
+                c['text'] = o['text']
+            if 'note' in o:
+                c['note'] = o['note'] + ' ' + TB
+            if 'technique' in o:
+                c['technique'] = o['technique']
+            if 'text_append' in o:
+                c['text'] = c['text'].rstrip() + ' ' + o['text_append']
+            if 'note_append' in o:
+                c['note'] = c['note'].replace(' ' + TB, '').rstrip() + ' ' + o['note_append'] + ' ' + TB
+            if 'technique_append' in o:
+                c['technique'] = c['technique'] + o['technique_append']
     checks = []
     for pid in ids:
         if pid not in CHECKS:
